@@ -3,12 +3,18 @@
  * and synclock, run under the deterministic scheduler (harness/vsched).
  * Thread ids: consumers (readers) first, then producers (writers).
  * Case lines (one scenario line + one sched line):
- *   chanf <cap> <single|mutex> R <nreads> W <k1> <k2> ...     channel, READ_SYNC (futex) reader
- *   chanm <cap> <single|mutex> R <nreads> W <k1> <k2> ...     channel, READ_MUTEX (condvar) reader
- *   ring <wait|single|once> <cap> <single|lock> R <n1> <n2> ... W <k1> ...
+ *   chanf <cap> <single|mutex|spin|sync> R <nreads> W <k1> <k2> ...   channel, READ_SYNC (futex) reader
+ *   chanm <cap> <single|mutex|spin|sync> R <nreads> W <k1> <k2> ...   channel, READ_MUTEX (condvar) reader
+ *   chanb <cap> <single|mutex|spin|sync> R <nreads> W <k1> <k2> ...   channel, READ_BUSY (busy-loop) reader
+ *                                                             (writer lock: none / write_mutex / write_spinlock / write_synclock)
+ *   ring <wait|single|once|busy> <cap> <single|lock> R <n1> <n2> ... W <k1> ...   (busy = READ_BUSY_LOOP readers)
  *   abq <cap> R <t1> <t2> ... W <p1> <p2> ...                 takes per consumer / puts per producer
  *   dbuf <cap> R <need> W <k1> <k2> ...                       the reader reads until it has got <need> items
+ *   dbufn <cap> R <need> W <k1> <k2> ...                      the same on a NON-BLOCKING double buffer: a write that
+ *                                                             is refused (MUGGLE_ERR_FULL) notes "full", yields, retries
  *   slock <nthreads> <iters>                                  synclock around a harness counter
+ *   kfutex <tok> ...                                          REAL kernel futex through the unmodified sync_obj_futex.c,
+ *                                                             real threads, no scheduler (harness/drivers/c03_kfutex.c)
  *   sched <spec>                                              (see vsched.h)
  * Output: the event trace, then one summary line "F ...". */
 #include "vdrv.h"
@@ -25,7 +31,8 @@
 #define MAXR 6
 #define MAXW 6
 
-static char scen[16], sub1[16], sub2[16], sched[8192];
+static char scen[16], sub1[16], sub2[16], sched[8192], kscript[512];
+void c03_kfutex_run(const char *script);
 static int cap, nr, nw, rcnt[MAXR], wcnt[MAXW], ids[VS_MAXT];
 static int bad;
 
@@ -110,7 +117,11 @@ static void dbuf_writer(void *arg)
 {
 	int w = *(int *)arg;
 	for (int j = 0; j < wcnt[w]; j++) {
-		muggle_double_buffer_write(&dbuf, (void *)(intptr_t)((w + 1) * 1000 + j + 1));
+		/* blocking mode never refuses; non-blocking mode returns MUGGLE_ERR_FULL on a full back buffer */
+		while (muggle_double_buffer_write(&dbuf, (void *)(intptr_t)((w + 1) * 1000 + j + 1)) != MUGGLE_OK) {
+			vs_note("full");
+			sched_yield();
+		}
 		vs_note("wrote %d", (w + 1) * 1000 + j + 1);
 	}
 }
@@ -156,15 +167,18 @@ static void case_line(char *line)
 	char op[32]; int used = 0;
 	if (sscanf(line, "%31s", op) != 1) return;
 	if (strcmp(op, "sched") == 0) { snprintf(sched, sizeof(sched), "%s", line + 6); return; }
-	if (strcmp(op, "chanf") == 0 || strcmp(op, "chanm") == 0) {
+	if (strcmp(op, "chanf") == 0 || strcmp(op, "chanm") == 0 || strcmp(op, "chanb") == 0) {
 		if (sscanf(line, "%*s %d %15s%n", &cap, sub1, &used) != 2) { bad = 1; return; }
 		strcpy(scen, op); parse_rw(line + used);
 	} else if (strcmp(op, "ring") == 0) {
 		if (sscanf(line, "%*s %15s %d %15s%n", sub1, &cap, sub2, &used) != 3) { bad = 1; return; }
 		strcpy(scen, op); parse_rw(line + used);
-	} else if (strcmp(op, "abq") == 0 || strcmp(op, "dbuf") == 0) {
+	} else if (strcmp(op, "abq") == 0 || strcmp(op, "dbuf") == 0 || strcmp(op, "dbufn") == 0) {
 		if (sscanf(line, "%*s %d%n", &cap, &used) != 1) { bad = 1; return; }
 		strcpy(scen, op); parse_rw(line + used);
+	} else if (strcmp(op, "kfutex") == 0) {
+		snprintf(kscript, sizeof(kscript), "%s", line + 6);
+		strcpy(scen, op);
 	} else if (strcmp(op, "slock") == 0) {
 		if (sscanf(line, "%*s %d %d", &nr, &iters) != 2) { bad = 1; return; }
 		strcpy(scen, op);
@@ -179,16 +193,28 @@ static void spawn_all(void (*rf)(void *), void (*wf)(void *))
 
 static void case_end(void)
 {
+	if (strcmp(scen, "kfutex") == 0 && !bad) {
+		/* no scheduler: the calling (main) thread and real sleeper threads on the real kernel */
+		c03_kfutex_run(kscript);
+		printf("F status=0 kfutex\n");
+		return;
+	}
 	if (!scen[0] || bad || nr + nw <= 0 || nr + nw > VS_MAXT) { printf("F badcase\n"); return; }
 	vs_reset();
 	vs_set_schedule(sched);
 	int st;
 	if (scen[0] == 'c') {
-		int fl = (strcmp(scen, "chanf") == 0 ? MUGGLE_CHANNEL_FLAG_READ_SYNC : MUGGLE_CHANNEL_FLAG_READ_MUTEX) |
-			(strcmp(sub1, "single") == 0 ? MUGGLE_CHANNEL_FLAG_WRITE_SINGLE : MUGGLE_CHANNEL_FLAG_WRITE_MUTEX);
+		int fl = (strcmp(scen, "chanf") == 0 ? MUGGLE_CHANNEL_FLAG_READ_SYNC :
+			  strcmp(scen, "chanb") == 0 ? MUGGLE_CHANNEL_FLAG_READ_BUSY : MUGGLE_CHANNEL_FLAG_READ_MUTEX) |
+			(strcmp(sub1, "single") == 0 ? MUGGLE_CHANNEL_FLAG_WRITE_SINGLE :
+			 strcmp(sub1, "spin") == 0 ? MUGGLE_CHANNEL_FLAG_WRITE_SPIN :
+			 strcmp(sub1, "sync") == 0 ? MUGGLE_CHANNEL_FLAG_WRITE_SYNC : MUGGLE_CHANNEL_FLAG_WRITE_MUTEX);
+		int wordlock = strcmp(sub1, "spin") == 0 || strcmp(sub1, "sync") == 0;
+		if (strcmp(sub1, "single") != 0 && strcmp(sub1, "mutex") != 0 && !wordlock) { printf("F badcase\n"); return; }
 		if (nr != 1 || cap <= 0 || muggle_channel_init(&chan, (muggle_sync_t)cap, fl) != 0) { printf("F badcase\n"); return; }
 		vs_name(&chan.write_cursor, "wcur"); vs_name(&chan.read_cursor, "rcur");
-		if (chan.write_mutex && strcmp(sub1, "single") != 0) vs_name(&chan.write_mutex->mtx, "wm");
+		if (wordlock) vs_name(&chan.write_spinlock, "wl");   /* write_spinlock / write_synclock share the union slot */
+		else if (chan.write_mutex && strcmp(sub1, "single") != 0) vs_name(&chan.write_mutex->mtx, "wm");
 		if (chan.read_mutex) vs_name(&chan.read_mutex->mtx, "rm");
 		if (chan.read_cv) vs_name(&chan.read_cv->cond_var, "rcv");
 		spawn_all(chan_reader, chan_writer);
@@ -199,6 +225,7 @@ static void case_end(void)
 		int fl = 0;
 		if (strcmp(sub1, "single") == 0) fl |= MUGGLE_RING_BUFFER_FLAG_SINGLE_READER;
 		else if (strcmp(sub1, "once") == 0) fl |= MUGGLE_RING_BUFFER_FLAG_MSG_READ_ONCE;
+		else if (strcmp(sub1, "busy") == 0) fl |= MUGGLE_RING_BUFFER_FLAG_READ_BUSY_LOOP | (nr == 1 ? MUGGLE_RING_BUFFER_FLAG_SINGLE_READER : 0);
 		if (strcmp(sub2, "single") == 0) fl |= MUGGLE_RING_BUFFER_FLAG_SINGLE_WRITER;
 		if (cap <= 0 || muggle_ring_buffer_init(&ring, (muggle_sync_t)cap, fl) != 0) { printf("F badcase\n"); return; }
 		vs_name(&ring.cursor, "cursor"); vs_name(&ring.write_spin, "spin");
@@ -221,8 +248,8 @@ static void case_end(void)
 		st = vs_run();
 		printf("F status=%d cnt=%d\n", st, abq.cnt);
 		if (st == 0) muggle_array_blocking_queue_destroy(&abq);
-	} else if (strcmp(scen, "dbuf") == 0) {
-		if (nr != 1 || cap <= 0 || muggle_double_buffer_init(&dbuf, cap, 0) != 0) { printf("F badcase\n"); return; }
+	} else if (strcmp(scen, "dbuf") == 0 || strcmp(scen, "dbufn") == 0) {
+		if (nr != 1 || cap <= 0 || muggle_double_buffer_init(&dbuf, cap, strcmp(scen, "dbufn") == 0) != 0) { printf("F badcase\n"); return; }
 #ifdef C03_NAMES_BY_OFFSET
 		vs_name_range(&dbuf, sizeof(dbuf), 1, "dbuf");
 #else
